@@ -289,3 +289,95 @@ func isNamedType(t types.Type, name string) bool {
 	nt, ok := t.(*types.Named)
 	return ok && nt.Obj().Name() == name
 }
+
+// ---- CE-COPYN: encoderDict.CopyN hands out the last n encoded bytes, in order ----
+//
+// A chunk that is stored raw is copied out of the encoder dictionary with CopyN(w, n): the n
+// bytes that precede the read index of the ring, oldest first, across the physical end of the
+// ring if need be; at most Len() bytes are there, a larger request gives them and ErrNoSpace.
+// The rule evaluates CopyN with a recording writer on every state of rings with 5 and 6 cells.
+// Necessary: anything else puts other bytes into a raw chunk than the chunk header announces
+// (C01, C08: the stream no longer decodes to the input; C10: gxz has removed the input by then).
+func ruleCopyNCE(c *Ctx, r *Report, prefix string) {
+	rule := prefix + "CE-COPYN"
+	fn := c.Func("lzma", "encoderDict.CopyN")
+	dt, bt := c.Type("lzma", "encoderDict"), c.Type("lzma", "buffer")
+	errNoSpace := c.Global("lzma", "ErrNoSpace")
+	if fn == nil || dt == nil || bt == nil || len(fn.Params) != 3 {
+		return
+	}
+	bst, _ := bt.Underlying().(*types.Struct)
+	iBuf, iHead, iCap := fieldIndex(dt, "buf"), fieldIndex(dt, "head"), fieldIndex(dt, "capacity")
+	iData, iFront, iRear := fieldIndex(bt, "data"), fieldIndex(bt, "front"), fieldIndex(bt, "rear")
+	if bst == nil || iBuf < 0 || iHead < 0 || iData < 0 || iFront < 0 || iRear < 0 {
+		c.miss("fields of lzma.encoderDict / lzma.buffer")
+		return
+	}
+	bad, cnt := "", 0
+	for _, N := range []int{5, 6} {
+		capacity := N - 1
+		for rear := 0; rear < N && bad == ""; rear++ {
+			for avail := 0; avail <= capacity && bad == ""; avail++ {
+				front := ((rear-1-avail)%N + N) % N
+				for _, head := range []int{capacity + 3, 2} {
+					have := avail
+					if head < have {
+						have = head
+					}
+					for n := 0; n <= have+1 && bad == ""; n++ {
+						data := make([]byte, N)
+						for i := range data {
+							data[i] = byte(20 + i)
+						}
+						in := NewInterp(c)
+						in.MaxSteps = 40000
+						cl := in.newCellOf(dt)
+						bc := cl.field(iBuf)
+						bc.field(iData).v = aBytes(in, data, bst.Field(iData).Type())
+						bc.field(iFront).v = aInt(int64(front), types.Typ[types.Int])
+						bc.field(iRear).v = aInt(int64(rear), types.Typ[types.Int])
+						cl.field(iHead).v = aInt(int64(head), types.Typ[types.Int64])
+						if iCap >= 0 {
+							cl.field(iCap).v = aInt(int64(capacity), types.Typ[types.Int])
+						}
+						var sink []int64
+						res := in.Call(fn, []aval{{k: kPtr, cell: cl}, {k: kSink, sink: &sink}, aInt(int64(n), types.Typ[types.Int])})
+						cnt++
+						what := fmt.Sprintf("CopyN(w, %d) on a ring of %d cells with front=%d rear=%d head=%d", n, N, front, rear, head)
+						if !res.OK || (!res.Panicked && len(res.Rets) != 2) {
+							bad = "cannot evaluate " + what + ": " + in.Undecided
+							break
+						}
+						if res.Panicked {
+							bad = what + " panics"
+							break
+						}
+						m := n
+						if m > have {
+							m = have
+						}
+						var want []int64
+						for j := 0; j < m; j++ {
+							want = append(want, int64(data[((rear-m+j)%N+N)%N]))
+						}
+						gotN, _ := res.Rets[0].Int()
+						wantErr := n > have
+						gotErr := isSomeErr(res.Rets[1])
+						if gotErr && errNoSpace != nil && res.Rets[1].glob != nil && res.Rets[1].glob != errNoSpace {
+							gotErr = false
+						}
+						if int(gotN) != m || !eqInt64s(sink, want) || gotErr != wantErr {
+							bad = fmt.Sprintf("%s writes %v and returns (%d, error=%v); the %d bytes in front of the read index are %v (ErrNoSpace exactly when more than the %d bytes present are asked for): a raw chunk would carry other bytes than were compressed", what, sink, gotN, isSomeErr(res.Rets[1]), m, want, have)
+							break
+						}
+					}
+				}
+			}
+		}
+	}
+	r.Check(bad == "", rule, "encoderDict.CopyN", c.Pos(fn.Pos()), fmt.Sprintf("hands out the last n bytes in order (ring wrap included) on %d ring states", cnt), bad)
+}
+
+func init() {
+	debugRules["copyn"] = func(c *Ctx, r *Report) { ruleCopyNCE(c, r, "") }
+}
